@@ -219,8 +219,7 @@ fn case_fn_mode(case: &mut Case, c12_mode: bool) -> CaseResult {
                 let mut r = RenderOpts::wild();
                 r.allow_cooked_block = false;
                 r.allow_block = false;
-                r.allow_surrogate_escape = false;
-                r.allow_shorthand = false;
+                        r.allow_shorthand = false;
                 render_op_doc(m, r, Some(&mut case.ch)).text
             } else {
                 canon_op(m)
